@@ -205,9 +205,9 @@ Print Assumptions C03_anyof_negative_refuted.
    sub-schemas whose own generator respects the requested modes: whatever they yield as NegativeValue
    wraps a NEGATIVE value of the sub-schema or is a structural violation; nothing is yielded unless
    NEGATIVE is requested.  Labels of sub-values are never flipped. ---- *)
-Theorem C03_object_wrappers_keep_labels : forall c keys it,
+Theorem C03_object_wrappers_keep_labels : forall c template_ok keys it,
   forallb key_respects_modes keys = true ->
-  In it (object_negatives c keys) ->
+  In it (object_negatives c template_ok keys) ->
   snd c = true /\ oi_label it = Neg /\ (oi_sub it = Some Neg \/ oi_sub it = None).
 Proof. exact object_wrappers_keep_labels. Qed.
 Print Assumptions C03_object_wrappers_keep_labels.
@@ -217,20 +217,20 @@ Print Assumptions C03_object_wrappers_keep_labels.
 Theorem C03_object_wrappers_need_negative_context :
   In {| oi_label := Neg; oi_via := WPatternProperty 0; oi_sub := Some Pos |} (wrap_all_callers_ctx (true, true) WPatternProperty [sub_string])
   /\ sub_respects_modes sub_string = true
-  /\ length (object_negatives (true, true) [OKProperties [sub_string]; OKPatternProperties [sub_string]; OKRequired 1; OKAdditional AddlFalse]) = 8%nat.
+  /\ length (object_negatives (true, true) true [OKProperties [sub_string]; OKPatternProperties [sub_string]; OKRequired 1; OKAdditional AddlFalse]) = 8%nat.
 Proof. exact callers_ctx_flips_labels. Qed.
 Print Assumptions C03_object_wrappers_need_negative_context.
 
 (* the "Object with unexpected properties" value is built exactly when additionalProperties is falsy
    in Python; unless it is the empty schema, that means additional properties are forbidden ... *)
-Theorem C03_additional_negative_partial : forall c a it,
-  a <> AddlEmptySchema -> In it (object_negatives c [OKAdditional a]) -> addl_forbids a = true.
+Theorem C03_additional_negative_partial : forall c template_ok a it,
+  a <> AddlEmptySchema -> In it (object_negatives c template_ok [OKAdditional a]) -> addl_forbids a = true.
 Proof. exact additional_negative_partial. Qed.
 Print Assumptions C03_additional_negative_partial.
 
 (* F9: ... additionalProperties: {} allows everything and still gets the negative value *)
 Theorem C03_additional_negative_refuted : exists c a it,
-  In it (object_negatives c [OKAdditional a]) /\ oi_label it = Neg /\ addl_forbids a = false.
+  In it (object_negatives c true [OKAdditional a]) /\ oi_label it = Neg /\ addl_forbids a = false.
 Proof.
   exists (true, true), AddlEmptySchema, {| oi_label := Neg; oi_via := WAdditional; oi_sub := None |}.
   repeat split. left. reflexivity.
@@ -239,18 +239,18 @@ Print Assumptions C03_additional_negative_refuted.
 
 (* ---- _positive_object: the objects built by dropping optional properties keep at least
    minProperties properties when the required ones alone suffice ... ---- *)
-Theorem C03_object_subset_sizes_partial : forall r o minp d n,
-  (minp <= r)%nat -> In (d, n) (object_subset_sizes r o) -> (minp <= n)%nat.
+Theorem C03_object_subset_sizes_partial : forall r o extra minp d n,
+  (minp <= r)%nat -> In (d, n) (object_subset_sizes r o extra) -> (minp <= n)%nat.
 Proof. exact object_subset_sizes_partial. Qed.
 Print Assumptions C03_object_subset_sizes_partial.
 
 (* F8: ... and not otherwise: minProperties is never consulted *)
 Theorem C03_object_subset_sizes_refuted : exists r o minp d n,
-  In (d, n) (object_subset_sizes r o) /\ (n < minp)%nat.
+  In (d, n) (object_subset_sizes r o false) /\ (n < minp)%nat.
 Proof. exists 0%nat, 2%nat, 1%nat, OOnlyRequired, 0%nat. exact object_subset_sizes_refuted. Qed.
 Print Assumptions C03_object_subset_sizes_refuted.
 
 Theorem C03_object_subset_sizes_nonvacuous :
-  object_subset_sizes 1 3 = [(OOneOptional, 2%nat); (OOneOptional, 2%nat); (OOneOptional, 2%nat); (OSubset, 3%nat); (OOnlyRequired, 1%nat)].
+  object_subset_sizes 1 3 false = [(OOneOptional, 2%nat); (OOneOptional, 2%nat); (OOneOptional, 2%nat); (OSubset, 3%nat); (OOnlyRequired, 1%nat)].
 Proof. exact object_subset_sizes_nonvacuous. Qed.
 Print Assumptions C03_object_subset_sizes_nonvacuous.
